@@ -1243,9 +1243,7 @@ func (g *mgen) precompileArgs() []mcase {
 			na = r.Intn(3)
 		}
 		rz, rv := addr()
-		toks := make([]common.Address, nt)
-		amounts := makeBigs(na)
-		return []mcase{g.cv(fmt.Sprintf("I_CrosschainArgs (CA_BridgeCall %s %s %d %d %s)", mc, vc, nt, na, rz), run("crosschain", "bridgeCall", new(crosschaintypes.BridgeCallArgs), mv, rv, toks, amounts, h.p.keys[2].Hex(), []byte{1}, vv, []byte{}))}
+		return []mcase{g.bridgeCallArgsCase(mc, mv, vc, vv, nt, na, rz, rv)}
 	case 5:
 		mc, mv := mn()
 		nc, nv := big(1)
@@ -1258,6 +1256,19 @@ func (g *mgen) precompileArgs() []mcase {
 		}
 		return []mcase{g.cv(fmt.Sprintf("I_CrosschainArgs (CA_OracleQuery %s %s)", mc, zc), run("crosschain", "isOracleOnline", new(crosschaintypes.IsOracleOnlineArgs), mv, zv))}
 	}
+}
+
+// bridgeCallArgsCase: BridgeCallArgs decoded by the real ParseMethodArgs from ABI-packed call data with nt tokens and na amounts.
+func (g *mgen) bridgeCallArgsCase(mc, mv, vc string, vv interface{}, nt, na int, rz string, rv common.Address) mcase {
+	mth := crosschaintypes.GetABI().Methods["bridgeCall"]
+	data, err := mth.Inputs.Pack(mv, rv, make([]common.Address, nt), makeBigs(na), g.h.p.keys[2].Hex(), []byte{1}, vv, []byte{})
+	var o outcome
+	if err != nil {
+		o = outcome{Class: "err", Msg: "harness: pack: " + err.Error()}
+	} else {
+		o = guard(func() error { return fxevmtypes.ParseMethodArgs(mth, new(crosschaintypes.BridgeCallArgs), data) })
+	}
+	return g.cv(fmt.Sprintf("I_CrosschainArgs (CA_BridgeCall %s %s %d %d %s)", mc, vc, nt, na, rz), o)
 }
 
 func (g *mgen) ibcMemo() []mcase {
@@ -1383,6 +1394,24 @@ func (h *harness) stageModel() {
 			head := strings.SplitN(strings.TrimPrefix(c.coq, "CV ("), " ", 2)[0]
 			h.rep.Count("model:" + c.obs.Class)
 			h.rep.Case(fmt.Sprintf("model|%s|%s|%s", head, c.obs.Class, short(strings.SplitN(c.obs.Msg, ":", 2)[0], 40)), true)
+		}
+	}
+	// deterministic grid: paired arrays of the bridgeCall precompile (every length combination 0..2, zero / non-zero refund)
+	{
+		g := &mgen{h: h, ok: 100}
+		for nt := 0; nt <= 2; nt++ {
+			for na := 0; na <= 2; na++ {
+				for _, rz := range []bool{false, true} {
+					rv := h.p.keys[0].Hex()
+					if rz {
+						rv = common.Address{}
+					}
+					c := g.bridgeCallArgsCase("true", "eth", "BgZero", bigZero(), nt, na, fmt.Sprint(rz), rv)
+					items = append(items, c.coq)
+					h.rep.Count("model:" + c.obs.Class)
+					h.rep.Case(fmt.Sprintf("model|grid|CA_BridgeCall|%d|%d|%v|%s", nt, na, rz, c.obs.Class), true)
+				}
+			}
 		}
 	}
 	fn := "c_mismatch"
